@@ -17,6 +17,14 @@ open Wz
 
 abbrev Str := List Char
 
+instance instDecEqExcept {ε α : Type} [DecidableEq ε] [DecidableEq α] : DecidableEq (Except ε α) :=
+  fun a b =>
+    match a, b with
+    | .ok x, .ok y => if h : x = y then isTrue (by rw [h]) else isFalse (fun e => by cases e; exact h rfl)
+    | .error x, .error y => if h : x = y then isTrue (by rw [h]) else isFalse (fun e => by cases e; exact h rfl)
+    | .ok _, .error _ => isFalse (fun e => by cases e)
+    | .error _, .ok _ => isFalse (fun e => by cases e)
+
 /-! ### Python primitives -/
 
 def tbl (t : List Bool) (n : Nat) : Bool := t.getD n false
@@ -295,12 +303,15 @@ def dictItem (item : Str) : Except String (Option (Str × Option Str)) := do
   let value := (stripDq? value).getD value
   return some (key, some value)
 
+/-- loop body of `parse_dict_header` -/
+def dictStep (d : Dict (Option Str)) (item : Str) : Except String (Dict (Option Str)) := do
+  match ← dictItem item with
+  | none => pure d
+  | some (k, v) => pure (dictSet d k v)
+
 /-- `parse_dict_header(value)` -/
 def parseDictHeader (s : Str) : Except String (Dict (Option Str)) :=
-  (parseListHeader s).foldlM (init := []) fun d item => do
-    match ← dictItem item with
-    | none => pure d
-    | some (k, v) => pure (dictSet d k v)
+  (parseListHeader s).foldlM dictStep []
 
 /-! ### option headers -/
 
